@@ -1,10 +1,12 @@
 from vf.gen import Plan
 from props.fam_l1 import l1_loader_module
+from props.fam_l3 import l3_module
 from props.fam_l2 import l2_module
 
 
 def build(tier, seed):
     mods = [l1_loader_module("C07", tier), l2_module("C07", tier)]
+    mods.append(l3_module("C07", tier))
     from props.C15 import build as build_c15
     for m15 in build_c15(tier, seed).modules:
         if m15.key == "c15_literal":
